@@ -330,7 +330,54 @@ def enum_c04_ble(tier):
                     yield {"op": op, "state": state, "err": err, "extra": False, "order": "spec", "shutdown": True}
 
 
-C04_BLE_LAYERS = [Layer("ble-pairings", run_c04_ble, enumerate=lambda tier: enum_c04_ble("ble"), exhaustive=True,
+def run_c04_ble_abort(case, R):
+    """pair-verify over BLE whose M2 (or M4) arrives in FragmentData pieces; after some pieces the accessory aborts the step with a plain
+    {State, Error} reply.  The operation must fail with the class documented for the code and no session may exist."""
+    R.nt()
+    R.cls("ble-fragment-abort:" + case["step"])
+
+    async def main(loop):
+        w = BleWorld(loop, k=case.get("k", 0))
+        try:
+            p = w.pairing
+            w.acc.verify_reply_pieces = case["piece"]
+            state = b"\x02" if case["step"] == "m2" else b"\x04"
+            w.acc.abort_fragments["verify"] = (case["after"], [(T_STATE, state), (T_ERROR, bytes([case["code"]]))])
+            if case["step"] == "m4":
+                # M4 is 3 bytes: make it long enough to be sent in pieces by padding it with an ignorable vendor item
+                w.acc.verify_fault = lambda stage, items, pv: items + [(0xF0, bytes(60))] if stage == "m4" else items
+                w.acc.abort_only_stage = "m4"
+            what = f"BLE pair-verify {case['step']} in pieces of {case['piece']}, aborted after {case['after']} piece(s) with error {case['code']}"
+            try:
+                r = await p.get_characteristics([(1, 10)])
+                out = ("ok", r)
+            except Exception as e:  # noqa: BLE001
+                out = ("raise", e)
+            if not w.acc.aborted_steps:
+                R.exclude("the reply was too short to be cut after that many pieces")
+                return
+            if out[0] == "ok" or p._encryption_key is not None:
+                R.fail("C04.error-reply-succeeds", f"{what}: {'the request succeeded' if out[0] == 'ok' else 'the controller holds session keys'}", step="ble-verify-" + case["step"], state="expected")
+                return
+            want = {2: X.AuthenticationError, 3: X.BackoffError, 4: X.MaxPeersError, 5: X.MaxTriesError, 6: X.UnavailableError, 7: X.BusyError}.get(case["code"], X.InvalidError)
+            if type(out[1]) is not want:
+                R.fail("C04.wrong-exception-class", f"{what}: raised {type(out[1]).__name__} ({out[1]}), documented class is {want.__name__}", step="ble-verify-" + case["step"], state="expected", decode="ble")
+        finally:
+            w.restore()
+    vtime.run(main)
+
+
+def enum_c04_ble_abort(tier):
+    for step in ("m2", "m4"):
+        for code in (1, 2, 3, 5, 6, 7):
+            for piece in (20, 40):
+                for after in (1, 2, 3):
+                    yield {"step": step, "code": code, "piece": piece, "after": after}
+
+
+C04_BLE_LAYERS = [Layer("ble-fragment-abort", run_c04_ble_abort, enumerate=enum_c04_ble_abort, exhaustive=True,
+                        space="pair-verify M2/M4 delivered in FragmentData pieces of 20/40 bytes, aborted after 1..3 pieces with a plain error reply x 6 codes", min_nontrivial=20),
+                  Layer("ble-pairings", run_c04_ble, enumerate=lambda tier: enum_c04_ble("ble"), exhaustive=True,
                         space="add/remove x 13 states x 13 errors x other fields present/absent x 2 orders, plus every state x error cell with pairing.shutdown() called while the request is in flight", min_nontrivial=800)]
 
 
@@ -381,6 +428,37 @@ def run_c01_ble(case, R):
             if w.acc.sessions_established != 1 or w.acc.decrypt_errors:
                 R.fail("C01.keys-differ", f"{what}: accessory sessions {w.acc.sessions_established}, decrypt errors {w.acc.decrypt_errors}", resumed=False)
                 return
+            if case.get("impostor"):
+                # the session is closed while the BLE stack fails to disconnect (no disconnected callback), and the next link is to a peer
+                # that cannot prove anything: no request may go out on it under keys of the old session
+                R.cls("ble:faulted-close-then-impostor")
+                w.client.disconnect_fails = True
+                try:
+                    await (p.close() if case["impostor"] == "close" else p._close_while_locked())
+                except Exception as e:  # noqa: BLE001
+                    R.cls("ble:close-raised-" + type(e).__name__)
+                armed[0] = True
+                seen = len(w.acc.requests)
+                nonlocal_fault = "bad-sig"
+
+                def vf2(stage, items, pv):
+                    return pv.full_m2(pv.inner_m2(sign_key=refhap.ed_from_seed(b"\x09" * 32))) if stage == "m2" and not pv.resumed else items
+                w.acc.verify_fault = vf2
+                w.ident.sessions.clear()          # the impostor knows no earlier session either
+                try:
+                    await p.get_characteristics([(1, 10)])
+                    out = ("ok", None)
+                except Exception as e:  # noqa: BLE001
+                    out = ("raise", e)
+                later = w.acc.requests[seen:]
+                verify_msgs = [r for r in later if r[0] == 3]
+                if out[0] == "ok" or w.acc.session is not None:
+                    R.fail("C01.forged-reply-accepted", f"{what}: after a close with a failing disconnect, a peer without the long-term key was accepted ({out[0]})", family="ble-impostor")
+                elif not verify_msgs or w.acc.decrypt_errors or w.acc.unauth_garbage or getattr(p, "_encryption_key", None) is not None:
+                    R.fail("C01.forged-reply-accepted", f"{what}: after a close with a failing disconnect the controller used the new link without a pair-verify "
+                                                        f"({len(verify_msgs)} verify messages, undecryptable writes {w.acc.decrypt_errors or w.acc.unauth_garbage}, keys held {getattr(p, '_encryption_key', None) is not None})",
+                           family="ble-stale-keys")
+                return
             for n in range(case.get("reconnects", 0)):
                 armed[0] = fault != "none" and case.get("fault_on_resume")
                 await w.client.disconnect()
@@ -420,6 +498,9 @@ def enum_c01_ble(tier):
         yield {"fault": f}
         yield {"fault": f, "pieces": 30}
     yield {"fault": "resume-bad-tag", "fault_on_resume": True, "reconnects": 1}
+    for att in (23, 155):
+        yield {"fault": "none", "impostor": "close", "att": att}
+        yield {"fault": "none", "impostor": "locked", "att": att}
 
 
 @st.composite
